@@ -970,6 +970,26 @@ def c13(res, wd):
             ps.append(p)
     engines.obs_runs(res, "C13", ps, {"C13", "C02", "C03", "C01"}, wd, "c13", batch=4,
                      nontrivial=lambda st, pl: st["loads"] >= 10)
+    # binding of SyncTest.tla: real sessions replayed through the specification (Trace_ST)
+    sel = ps[:sizes(res.tier, 6, 30)]
+
+    def conf(job):
+        i, pl = job
+        path = os.path.join(wd, "stcf_%02d.ndjson" % i)
+        q = dict(pl)
+        q["frames"] = min(pl["frames"], 150)
+        core.drive([q], path, detail=2)
+        return i, path, engines.validate_st(path, os.path.join(wd, "mdstcf_%02d" % i))
+
+    drift = 0
+    for i, path, d in core.parallel(conf, list(enumerate(sel)), n=6):
+        res.traces += 1
+        if d["drift"]:
+            drift += 1
+            res.extra.setdefault("conformance_drift", []).append({"trace": path, "first": d["drift"]})
+    res.extra["conformance_synctest"] = {"sessions_replayed_through_SyncTest_tla": len(sel), "drift": drift}
+    if drift:
+        core.log("[C13] CONFORMANCE-DRIFT in %d/%d sync-test sessions" % (drift, len(sel)))
     res.rule = ("MC_SyncTest.tla (SyncTest.tla = sync layer + checksum history + compare-then-roll-back) explored "
                 "exhaustively for 1-3 players, check distance 0..3, delay 0..1, all input sequences over {0,1} and the "
                 "glitch on the k-th simulation of a frame, with the monitor as invariant; real SyncTestSessions with "
